@@ -476,6 +476,7 @@ def run(prop, tier, extra=None):
         progs += mask_codes(rnd, tier)
         progs += mixed_arith(rnd, tier)
         progs += derived_types(rnd, tier)
+        progs += broadcast_evals(rnd, tier)
     if prop == 'C04':
         progs += hetero_stacks(rnd, tier)
         progs += mfopen_stacks(rnd, tier)
